@@ -1081,7 +1081,7 @@ func C17(c *vf.Ctx) {
 
 	runs := []c17Run{}
 	// (1) every shape x library x json x message location x package, one service with one method (and the empty prefixes)
-	r1 := c17Run{label: "shapes", svcNames: []string{"Foo"}, methNames: []string{"Bar"}, shapes: allShapes, pkgs: []string{"a.b"},
+	r1 := c17Run{label: "shapes", svcNames: []string{"Foo"}, methNames: []string{"Bar"}, shapes: allShapes, pkgs: []string{"", "a.b"},
 		libs: allLibs, jsons: "BOOLEAN", msgs: []string{"local", "imported"}, plans: "{<<>>, <<0>>, <<1>>}", emit: true, sampleOneIn: 1}
 	if !q {
 		r1.pkgs = []string{"", "p", "a.b"}
